@@ -7,7 +7,6 @@ pub struct TranscriptRng { x: u8 }
 #[verifier::external_body]
 pub struct TranscriptRngBuilder { x: u8 }
 pub struct NullRng;
-impl CryptoRngCore for NullRng {}
 pub uninterp spec fn le64(x: u64) -> Seq<u8>;
 pub uninterp spec fn strobe_prf(log: Seq<TEvent>, label: Seq<u8>, n: nat) -> Seq<u8>;
 impl Transcript {
@@ -28,17 +27,56 @@ impl Transcript {
            final(dest)@ == strobe_prf(old(self).log(), label@, old(dest)@.len()), final(dest)@.len() == old(dest)@.len(),
     { unimplemented!() }
     #[verifier::external_body]
-    pub fn build_rng(&self) -> (r: TranscriptRngBuilder) { unimplemented!() }
+    pub fn build_rng(&self) -> (r: TranscriptRngBuilder)
+        ensures r.blog() == self.log(), r.bwit() == Seq::<(Seq<u8>, Seq<u8>)>::empty()
+    { unimplemented!() }
 }
+// ---- ghost model of merlin's transcript RNG: the key is everything absorbed (log), every rekey (label, witness bytes)
+// and what finalize() drew from the external RNG; outputs are an uninterpreted PRF of (key, counter).
+pub struct RngKey { pub log: Seq<TEvent>, pub wit: Seq<(Seq<u8>, Seq<u8>)>, pub ext: int }
+pub struct RngSt { pub key: RngKey, pub ctr: nat }
+pub uninterp spec fn rng_ext_token(st: RngSt) -> int;
+pub uninterp spec fn rng_u64(st: RngSt) -> u64;
+pub uninterp spec fn rng_scalar(st: RngSt) -> Scalar;
+pub open spec fn rng_adv(st: RngSt) -> RngSt { RngSt { key: st.key, ctr: st.ctr + 1 } }
+pub trait CryptoRngCore {
+    spec fn rng_state(&self) -> RngSt;
+    spec fn rng_step(st: RngSt) -> RngSt;
+}
+pub open spec fn rng_steps<R: CryptoRngCore>(st: RngSt, n: nat) -> RngSt
+    decreases n
+{ if n == 0 { st } else { R::rng_step(rng_steps::<R>(st, (n - 1) as nat)) } }
 impl TranscriptRngBuilder {
+    pub uninterp spec fn blog(&self) -> Seq<TEvent>;
+    pub uninterp spec fn bwit(&self) -> Seq<(Seq<u8>, Seq<u8>)>;
     #[verifier::external_body]
-    pub fn rekey_with_witness_bytes(self, label: &'static [u8], witness: &[u8]) -> (r: TranscriptRngBuilder) { unimplemented!() }
+    pub fn rekey_with_witness_bytes(self, label: &'static [u8], witness: &[u8]) -> (r: TranscriptRngBuilder)
+        ensures r.blog() == self.blog(), r.bwit() == self.bwit().push((label@, witness@))
+    { unimplemented!() }
     #[verifier::external_body]
-    pub fn finalize<R: CryptoRngCore>(self, rng: &mut R) -> (r: TranscriptRng) { unimplemented!() }
+    pub fn finalize<R: CryptoRngCore>(self, rng: &mut R) -> (r: TranscriptRng)
+        ensures r.rng_state() == (RngSt { key: RngKey { log: self.blog(), wit: self.bwit(), ext: rng_ext_token(old(rng).rng_state()) }, ctr: 0 }),
+            final(rng).rng_state() == R::rng_step(old(rng).rng_state())
+    { unimplemented!() }
 }
 impl TranscriptRng {
+    pub uninterp spec fn st(&self) -> RngSt;
     #[verifier::external_body]
-    pub fn as_rngcore(&mut self) -> (r: &mut TranscriptRng) { unimplemented!() }
+    pub fn as_rngcore(&mut self) -> (r: &mut TranscriptRng)
+        ensures *r == *old(self), *final(self) == *final(r)
+    { unimplemented!() }
     #[verifier::external_body]
-    pub fn next_u64(&mut self) -> (r: u64) { unimplemented!() }
+    pub fn next_u64(&mut self) -> (r: u64)
+        ensures r == rng_u64(old(self).rng_state()), final(self).rng_state() == rng_adv(old(self).rng_state())
+    { unimplemented!() }
+}
+impl CryptoRngCore for TranscriptRng {
+    open spec fn rng_state(&self) -> RngSt { self.st() }
+    open spec fn rng_step(st: RngSt) -> RngSt { rng_adv(st) }
+}
+// NullRng (src/utils/nullrng.rs): fills with zeros and keeps no state
+pub uninterp spec fn null_rng_state() -> RngSt;
+impl CryptoRngCore for NullRng {
+    open spec fn rng_state(&self) -> RngSt { null_rng_state() }
+    open spec fn rng_step(st: RngSt) -> RngSt { st }
 }
